@@ -88,7 +88,7 @@ Section Shape.
     | PUnknown => True
     | PA2V arr =>
         exists va d rest st,
-          holds tys vals' arr va (TArray (d :: rest) st) /\ valid_shape (d :: rest) /\ d < 2 ^ 64 /\
+          holds tys vals' arr va (TArray (d :: rest) st) /\ valid_shape (d :: rest) /\ d < 2 ^ 63 /\
           t = TVector d (elem_ty rest st) /\
           eval_node OArrayToVector [TArray (d :: rest) st] t [va] = Ok v
     | PTuple l =>
@@ -373,18 +373,37 @@ Section Mvg.
       destruct Hp as (va & d & rest & st & Ha & Hvs & Hd & Et & Ea).
       apply bind_ok in H as (at_ & Eat & H). apply bind_ok in H as (rt & Ert & H). unfold emit in H. injection H as <- <-.
       rewrite (holds_node_ty _ _ _ _ _ Ha) in Eat. injection Eat as <-.
-      cbn [get_type] in Ert. destruct ((index <? 0) || (d <=? index)) eqn:Rg; [discriminate|]. injection Ert as <-.
       injection Et as -> ->.
-      assert (Eid : id = index) by (apply as_u64_small'; lia).
-      assert (Eo : (if (length (dims (TArray (d :: rest) st)) =? 1)%nat then OGet [index]
-                    else OGetSlice [SSingle index; SEllipsis]) = row_op rest index) by (destruct rest; reflexivity).
-      rewrite Eo. change (match rest with [] => TScalar st | _ :: _ => TArray rest st end) with (elem_ty rest st).
-      rewrite Eid in Hw.
-      destruct (emit_sem out tape' vals1 (mkNode (row_op rest index) [arr] [] [] (elem_ty rest st)) [va]
+      assert (I0 : 0 <= id) by (unfold znth in Hw; destruct (id <? 0) eqn:X; [discriminate|lia]).
+      assert (Hm : id = index mod 2 ^ 64).
+      { unfold id, as_u64, sval, norm. change (modulus U64) with (2 ^ 64). cbn [signed andb]. now rewrite Z.mod_mod by lia. }
+      clear Hnone.
+      assert (Hop : (if (length (dims (TArray (d :: rest) st)) =? 1)%nat then OGet [index]
+                     else OGetSlice [SSingle (if (length (dims (TArray (d :: rest) st)) =? 1)%nat then index
+                                              else if 2 ^ 63 <=? index then index - 2 ^ 64 else index); SEllipsis])
+                    = row_op rest id /\ rt = elem_ty rest st /\ id < d).
+      { cbn [dims hd] in Ert |- *. destruct rest as [|r rest'].
+        - cbn [length Nat.eqb] in Ert |- *. cbn [get_type] in Ert.
+          destruct (index <? 0) eqn:N.
+          + destruct ((index + d <? 0) || (d <=? index + d)) eqn:Rg; [discriminate|]. exfalso. lia.
+          + destruct ((index <? 0) || (d <=? index)) eqn:Rg; [discriminate|]. injection Ert as <-.
+            split; [|split; [reflexivity|lia]]. cbn [row_op]. do 2 f_equal. lia.
+        - cbn [length Nat.eqb] in Ert |- *. cbn [get_type] in Ert.
+          destruct (2 ^ 63 <=? index) eqn:B.
+          + destruct (index - 2 ^ 64 <? 0) eqn:N.
+            * destruct ((index - 2 ^ 64 + d <? 0) || (d <=? index - 2 ^ 64 + d)) eqn:Rg; [discriminate|]. exfalso. lia.
+            * destruct ((index - 2 ^ 64 <? 0) || (d <=? index - 2 ^ 64)) eqn:Rg; [discriminate|]. injection Ert as <-.
+              split; [|split; [reflexivity|lia]]. cbn [row_op]. do 3 f_equal. lia.
+          + destruct (index <? 0) eqn:N.
+            * destruct ((index + d <? 0) || (d <=? index + d)) eqn:Rg; [discriminate|]. exfalso. lia.
+            * destruct ((index <? 0) || (d <=? index)) eqn:Rg; [discriminate|]. injection Ert as <-.
+              split; [|split; [reflexivity|lia]]. cbn [row_op]. do 3 f_equal. lia. }
+      destruct Hop as (Eo & -> & Hlt). rewrite Eo.
+      destruct (emit_sem out tape' vals1 (mkNode (row_op rest id) [arr] [] [] (elem_ty rest st)) [va]
                          [TArray (d :: rest) st] w V) as (V' & H' & T').
       { destruct rest; reflexivity. }
       { cbn. auto. }
-      { cbn [n_op n_ty]. eapply a2v_row_sem; eauto. lia. }
+      { cbn [n_op n_ty]. eapply a2v_row_sem; eauto; lia. }
       eexists [w], [_]. split; [reflexivity|]. split; auto. split.
       + intros e E. injection E as <-. split; [exact H'|exact I].
       + intros infer (Ig & _) Ty. apply T'; auto; cbn; rewrite Ig; auto; lia.
@@ -432,7 +451,7 @@ Definition zip_a2v_typed (nodes : list node) : Prop :=
     mapM (dep_get (map n_ty nodes) i) (n_deps nd) = Ok dts ->
     match n_op nd with
     | OZip => exists n ets, dts = map (TVector n) ets /\ n_ty nd = TVector n (TTuple ets)
-    | OArrayToVector => exists d rest st, dts = [TArray (d :: rest) st] /\ valid_shape (d :: rest) /\ d < 2 ^ 64 /\
+    | OArrayToVector => exists d rest st, dts = [TArray (d :: rest) st] /\ valid_shape (d :: rest) /\ d < 2 ^ 63 /\
                                           n_ty nd = TVector d (elem_ty rest st)
     | _ => True
     end.
